@@ -390,6 +390,39 @@ func runC06(c *Ctx, r *Report) {
 	df := &Flow{P: p, Fn: diff, Entry: Facts{}}
 	df.Edge = func(cond ast.Expr, taken bool, f Facts) {
 		for _, a := range splitCond(cond, taken) {
+			// a predicate helper `func belongsTo(e, l) bool { return e.GetLogID() == l.ID }` on its true edge
+			if hc, ok := ast.Unparen(a.E).(*ast.CallExpr); ok && a.Truth {
+				if cf := p.Callee(diff, hc); cf != nil && p.firstParty(cf.Pkg()) {
+					if h := p.ByObj[cf]; h != nil && h.Body != nil && len(h.Body.List) == 1 {
+						if ret, ok := h.Body.List[0].(*ast.ReturnStmt); ok && len(ret.Results) == 1 {
+							if hb, ok := ast.Unparen(ret.Results[0]).(*ast.BinaryExpr); ok && hb.Op == token.EQL {
+								for _, pair := range [][2]ast.Expr{{hb.X, hb.Y}, {hb.Y, hb.X}} {
+									gc, ok := ast.Unparen(pair[0]).(*ast.CallExpr)
+									if !ok {
+										continue
+									}
+									gs, ok := ast.Unparen(gc.Fun).(*ast.SelectorExpr)
+									if !ok || gs.Sel.Name != "GetLogID" {
+										continue
+									}
+									if v, _ := p.FieldSel(h, pair[1]); v != idF {
+										continue
+									}
+									if pid, ok := ast.Unparen(gs.X).(*ast.Ident); ok {
+										for i := 0; i < len(hc.Args); i++ {
+											if paramObjAny(h, i) == p.ObjOf(h, pid) {
+												if _, key, ok := p.PathKey(diff, hc.Args[i]); ok {
+													f["sameID|"+key] = true
+												}
+											}
+										}
+									}
+								}
+							}
+						}
+					}
+				}
+			}
 			be, ok := ast.Unparen(a.E).(*ast.BinaryExpr)
 			if !ok || !((be.Op == token.EQL && a.Truth) || (be.Op == token.NEQ && !a.Truth)) {
 				continue
